@@ -1,0 +1,33 @@
+//go:build verif
+
+package math
+
+// Contracts for govc (see /verif/DESIGN.md). Comment-only: no declarations.
+
+//@ func MaxU64(a, b) r
+//@   property C19
+//@   ensures r >= a && r >= b && (r == a || r == b)
+
+//@ func MinU64(a, b) r
+//@   property C19
+//@   ensures r <= a && r <= b && (r == a || r == b)
+
+//@ func IntegerSquareroot(n) r
+//@   property C19
+//@   ensures floor: r*r <= n && n < (r+1)*(r+1)
+//@   loop 1
+//@     invariant n == 0 ==> x == 0 && y == 0
+//@     invariant n > 0 ==> 0 < x && x <= n && n < (x+1)*(x+1) && y == (x + n/x)/2
+//@     invariant n > 0 && n < 18446744073709551615 && x == n ==> y == (n+1)/2
+//@     decreases x
+
+//@ func IsPowerOfTwo(n) r
+//@   property C19
+//@   mode bv
+//@   ensures r <==> ispow2(n)
+
+//@ func NextPowerOfTwo(in) r
+//@   property C19
+//@   mode bv
+//@   ensures zero: in == 0 ==> r == 0
+//@   ensures least: in > 0 && in <= 9223372036854775808 ==> ispow2(r) && r >= in && (r >> 1) < in
